@@ -614,7 +614,7 @@ func main() {
 			seen[m] = true
 		}
 		rng := r.SubRng("c27-masks")
-		for len(masks) < 30 {
+		for len(masks) < 40 {
 			m := rng.Intn(1 << nBits)
 			if !seen[m] {
 				seen[m] = true
